@@ -262,7 +262,7 @@ func (s *Server) publishDiagnostics(ctx context.Context, docURI protocol.Documen
 	s.resolved.Store(docURI, resolved)
 	s.publishMu.Unlock()
 
-	diagnostics := s.analyze(content)
+	diagnostics := s.analyze(content, resolved)
 
 	for _, err := range loadErrors {
 		severity := protocol.DiagnosticSeverityError
@@ -300,7 +300,7 @@ func (s *Server) publishDiagnostics(ctx context.Context, docURI protocol.Documen
 	})
 }
 
-func (s *Server) analyze(content string) []protocol.Diagnostic {
+func (s *Server) analyze(content string, resolved *include.ResolvedJournal) []protocol.Diagnostic {
 	journal, parseErrs := parser.Parse(content)
 
 	diagnostics := make([]protocol.Diagnostic, 0, len(parseErrs))
@@ -326,6 +326,37 @@ func (s *Server) analyze(content string) []protocol.Diagnostic {
 	if s.workspace != nil {
 		external.Accounts = s.workspace.GetDeclaredAccounts()
 		external.Commodities = s.workspace.GetDeclaredCommodities()
+	}
+	// declarations made in the files this document includes count for it as
+	// well, with or without a workspace (the workspace's maps are shared: copy)
+	if resolved != nil && len(resolved.Files) > 0 {
+		accounts := make(map[string]bool, len(external.Accounts))
+		for name := range external.Accounts {
+			accounts[name] = true
+		}
+		commodities := make(map[string]bool, len(external.Commodities))
+		for symbol := range external.Commodities {
+			commodities[symbol] = true
+		}
+		for _, included := range resolved.Files {
+			if included == nil {
+				continue
+			}
+			for _, dir := range included.Directives {
+				switch d := dir.(type) {
+				case ast.AccountDirective:
+					accounts[d.Account.Name] = true
+				case ast.CommodityDirective:
+					commodities[d.Commodity.Symbol] = true
+				}
+			}
+		}
+		if len(accounts) > 0 {
+			external.Accounts = accounts
+		}
+		if len(commodities) > 0 {
+			external.Commodities = commodities
+		}
 	}
 
 	var result *analyzer.AnalysisResult
